@@ -1,6 +1,7 @@
 package vc
 
 import (
+	"fmt"
 	"go/types"
 	"sort"
 
@@ -217,6 +218,7 @@ func (g *Gen) havocLoop(l *Loop, head *State, entrySt *State) {
 	if everything {
 		g.havocAll(head)
 		newAlloc()
+		g.assumeFunctionFrame(head)
 		return
 	}
 	for _, h := range sortedKeys(allHeaps) {
@@ -274,4 +276,35 @@ func sortedBlocks(m map[*ssa.BasicBlock]bool) []*ssa.BasicBlock {
 	}
 	sort.Slice(bs, func(i, j int) bool { return bs[i].Index < bs[j].Index })
 	return bs
+}
+
+
+// assumeFunctionFrame: at a loop head whose effect is unknown ("everything" was havocked) the function's own frame still
+// holds: every store, map update and call in the function is an obligation against the function's assigns clause (assert,
+// then assume), so an object that existed at function entry can differ from its entry value only inside those regions.
+// Objects allocated since entry are unconstrained. (Without this, a field that the function never assigns had to be restated
+// as unchanged in every loop invariant; a refactoring that caches such a field in a local before the loop then broke the proof.)
+func (g *Gen) assumeFunctionFrame(head *State) {
+	if g.assignAll || g.isC || len(g.inlStack) > 0 || g.entry == nil {
+		return
+	}
+	base := g.entry.clone()
+	for _, r := range g.fnAssigns {
+		g.havocRegion(base, r)
+	}
+	for _, h := range g.allHeapNames() {
+		cur, ok := head.H[h]
+		if !ok {
+			continue
+		}
+		was := h + "@0"
+		if t, ok := base.H[h]; ok {
+			was = t
+		}
+		if cur == was {
+			continue
+		}
+		q := g.fresh("o")
+		g.assume(fmt.Sprintf("(forall ((%s Int)) (! (=> (<= %s alloc@0) (= (select %s %s) (select %s %s))) :pattern ((select %s %s))))", q, q, cur, q, was, q, cur, q))
+	}
 }
